@@ -190,3 +190,22 @@ PROPS["C20"] = Prop(
     not_covered=["non-bindable target rejection in bind_next / validate_args (literal arms)", "reads of undefined names (eval_expr Var arm)",
                  "scope push/pop discipline", "bind_object_prop's `_` short-circuit"],
 )
+
+
+V_LIST = VUnit("list_bind", "list_bind", ["bind::bind_list"])
+
+PROPS["C13"] = Prop(
+    "C13", "proof",
+    "Unit V-list: bind::bind_list copied verbatim and verified by Verus for patterns and source lists of every length: equal lengths "
+    "(or at least n-1 with a final ..rest), pattern i bound to element i left to right, rest = a fresh list of exactly xs[n-1..] "
+    "(so prefix + rest == xs, lemma), spread item rejected, no index underflow/OOB; bind_next external (any behaviour). "
+    "Unit V-name contributes the once-per-pattern name set clause.",
+    vunits=[V_LIST, V_NAME],
+    assumptions=[
+        "grammar invariant: `..` (collect) is only produced together with a pattern/parameter (ParamList, ReverseExprList in parser.lalrpop, by inspection)",
+        "A-lock: list cell modelled as exclusively owned",
+        "object destructuring (bind_object, bind_object_prop), spread expansion (eval_list_items) and validate_args are not under contract",
+    ],
+    trusted_base=VERUS_TRUST,
+    not_covered=["object patterns", "spread in list literals / argument lists", "parameter binding in eval_call (unit V-call if present)", "validate_args"],
+)
